@@ -135,6 +135,25 @@ def pattern_shape(tracks, lines):
         if p2.patterns[0].raw_data != img:
             vs.append(C.viol("pattern-load", dict(key, based_on="absent" if bver is None else ".".join(map(str, bver))), {}, case))
             break
+    # a project LOADED from a file that an old program version wrote (VERS < 1.9.5.0): images assigned to its patterns
+    # afterwards are ordinary images -- what the loader had to do for the old file must not linger
+    from struct import pack as _pack
+
+    pold = rv.Project()
+    pold.attach_pattern(rv.Pattern(tracks=tracks, lines=lines))
+    ch_old = [(i, _pack("BBBB", 2, 4, 9, 1) if i == b"VERS" else d) for i, d in codec.parse_chunks(C.save(pold))]
+    try:
+        lo = C.load_bytes(codec.build_chunks(ch_old))
+        lo.patterns[0].raw_data = img
+        if lo.patterns[0].raw_data != img:
+            vs.append(C.viol("pattern-raw-data-setter-history", dict(key, step="on-pattern-of-old-version-project"), {}, case))
+        nt_ = lo.patterns[0].data[0][0]
+        nt_.raw_data = _pack("<BBHHH", 5, 6, 0x0123, 7, 8)
+        if nt_.module != 0x0123:
+            vs.append(C.viol("note-codec", dict(key, part="module-on-note-of-old-version-project"), {"module": nt_.module}, case))
+        lo.patterns[0].raw_data = img
+    except Exception as e:
+        vs.append(C.viol("pattern-load", dict(key, based_on="old-VERS", exc=type(e).__name__), {"error": repr(e)[:160]}, case))
     b2 = C.save(p2)
     pd = [d for i, d in codec.parse_chunks(b2) if i == b"PDTA"]
     if pd != [img]:
